@@ -332,6 +332,22 @@ pub fn profile(name: &str) -> Option<Profile> {
             blob_pct: 0,
             ..base
         },
+        "dense" => Profile {
+            name: "dense",
+            weights: w(&[
+                (Batch, 40), (Put, 10), (Del, 6), (Rotate, 3), (Flush, 10), (Leveled, 5), (Major, 4), (SnapOpen, 2),
+                (SnapRelease, 1), (Reopen, 1), (ScanBurst, 2),
+            ]),
+            n_g: 700,
+            n_w: 0,
+            n_d: 0,
+            min_ops: 25,
+            max_ops: 70,
+            snap_slots: 2,
+            filter_pct: 0,
+            blob_pct: 0,
+            tiny_targets: false,
+        },
         _ => return None,
     })
 }
@@ -422,14 +438,14 @@ pub fn gen_history(rng: &mut Rng, p: &Profile, uni: &Universe, thresholds: &[u32
                 if gd.is_empty() {
                     continue;
                 }
-                let cnt = rng.range(2, 6) as usize;
-                let mut ks: Vec<usize> = (0..cnt).map(|_| pick_gd(rng)).collect();
+                let cnt = if p.name == "dense" { rng.range(100, 500) as usize } else { rng.range(2, 6) as usize };
+                let mut ks: Vec<usize> = (0..cnt).map(|_| if p.name == "dense" { *rng.pick(&gd) } else { pick_gd(rng) }).collect();
                 ks.sort_unstable();
                 ks.dedup();
                 Op::Batch {
                     items: ks
                         .into_iter()
-                        .map(|k| (k, if rng.chance(1, 4) { None } else { Some(value_len(rng, thresholds)) }))
+                        .map(|k| (k, if rng.chance(1, 4) { None } else if p.name == "dense" { Some(rng.range(0, 9) as usize) } else { Some(value_len(rng, thresholds)) }))
                         .collect(),
                 }
             }
